@@ -98,12 +98,8 @@ def usesAllowList : List (String × String) := [
   ("css/properties.PageSizes index", "lookup / iteration in a table filled by its initialiser or init(); never written afterwards (no entry in `written`)"),
   ("css/properties.PropsFromNames index", "lookup / iteration in a table filled by its initialiser or init(); never written afterwards (no entry in `written`)"),
   ("css/properties.TableWrapperBoxProperties range", "lookup / iteration in a table filled by its initialiser or init(); never written afterwards (no entry in `written`)"),
-  ("css/selector.errExpectedClosingParenthesis value", "error value: immutable"),
-  ("css/selector.errExpectedParenthesis value", "error value: immutable"),
-  ("css/selector.errUnmatchedParenthesis value", "error value: immutable"),
   ("css/validation.ANGLETORADIANS index", "lookup / iteration in a table filled by its initialiser or init(); never written afterwards (no entry in `written`)"),
   ("css/validation.AngleUnits index", "lookup / iteration in a table filled by its initialiser or init(); never written afterwards (no entry in `written`)"),
-  ("css/validation.ErrInvalidValue value", "error value: immutable"),
   ("css/validation.LENGTHUNITS index", "lookup / iteration in a table filled by its initialiser or init(); never written afterwards (no entry in `written`)"),
   ("css/validation.RESOLUTIONTODPPX index", "lookup / iteration in a table filled by its initialiser or init(); never written afterwards (no entry in `written`)"),
   ("css/validation.allValidators index", "lookup / iteration in a table filled by its initialiser or init(); never written afterwards (no entry in `written`)"),
